@@ -1,6 +1,8 @@
 import NitroVerif.Base.Sexp
 import NitroVerif.Model.SourceMap
 import NitroVerif.Spec.SourceMap
+import NitroVerif.Model.PrintMap
+import NitroVerif.Gql.Codec
 /-!
 Line-protocol driver for C06 (exe `nv_c06`).
 
@@ -10,6 +12,15 @@ Model side (`NitroVerif.SourceMap`):
   (writer.run op …)                            → (ok "buffer" "mappings" ("name" …) line col) | (panic)
        op ::= (w "chunk") | (wf "chunk" line col file builtin ["name"]) | (in) | (de) | (map n …)
   (files.op nSchema nOps used …) / (files.schema nSchema nOps) → (ok (fileIndices …) (sourceFiles …))
+Printer call sites (`NitroVerif.PrintMap`):
+  (sites.schema cfg (tsdoc …))                 → (ok op…) | (err "ScalarTypeNotProvided" "Name")     every call, in order
+  (sites.resolvers (tsdoc …))                  → (ok op…)                                           every call, in order
+  (sites.optype opts (doc …) (pos…))           → (ok op…)      the write_for calls with a non-builtin position, in order
+  (sites.opjs opts (doc …))                    → (ok op…)      the same for the JavaScript module
+       op   ::= (w "text") | (wf "text" pos "name"|(noname)) | (in) | (de)
+       cfg  ::= (cfg (scalars SC…) (optional BOOL) (runtime BOOL))
+       SC   ::= (single "N" "t") | (sendrecv "N" "send" "receive") | (separate "N" "ro" "ri" "oo" "oi")
+       opts ::= (opts BOOL(capitalize) "query" "mutation" "subscription" "fragmentVariable" "result" "variables" "fragmentType" BOOL(printValues))
 Spec side (`NitroVerif.SourceMapSpec`):
   (vlq.dec "text")                             → (ok n "rest") | (err)
   (sm.decode "mappings")                       → (ok (l (s gc) (s gc src ol oc) (s gc src ol oc name) …) …) | (err)
@@ -121,8 +132,61 @@ def problemSexp : Problem → Sexp
 
 end C06Spec
 
+namespace C06Sites
+open NitroVerif.Gql NitroVerif.DeclCfg NitroVerif.PrintMap
+
+def decScalar : Sexp → Option (Name × ScalarCfg)
+  | .list [.atom "single", .str n, .str t] => some (n, .single t)
+  | .list [.atom "sendrecv", .str n, .str s, .str r] => some (n, .sendReceive s r)
+  | .list [.atom "separate", .str n, .str ro, .str ri, .str oo, .str oi] => some (n, .separate ro ri oo oi)
+  | _ => none
+
+def decCfg : Sexp → Option Cfg
+  | .list [.atom "cfg", .list (.atom "scalars" :: scs), .list [.atom "optional", o], .list [.atom "runtime", r]] => do
+    let scalars ← scs.mapM decScalar
+    some { scalars, optionalInput := ← Gql.Dec.bool? o, emitSchemaRuntime := ← Gql.Dec.bool? r }
+  | _ => none
+
+def decOpts : Sexp → Option OpOpts
+  | .list [.atom "opts", cap, .str q, .str m, .str s, .str fv, .str r, .str v, .str ft, pv] => do
+    some { capitalize := ← Gql.Dec.bool? cap, querySuffix := q, mutationSuffix := m, subscriptionSuffix := s,
+           fragmentVariableSuffix := fv, resultSuffix := r, variablesSuffix := v, fragmentTypeSuffix := ft,
+           printValues := ← Gql.Dec.bool? pv }
+  | _ => none
+
+def encOp : POp → Sexp
+  | .write t => .list [.atom "w", .str t]
+  | .writeFor t p (some n) => .list [.atom "wf", .str t, Gql.Enc.pos p, .str n]
+  | .writeFor t p none => .list [.atom "wf", .str t, Gql.Enc.pos p, .list [.atom "noname"]]
+  | .indent => .list [.atom "in"]
+  | .dedent => .list [.atom "de"]
+
+def handle? : Sexp → Option Sexp
+  | .list [.atom "sites.schema", c, d] =>
+    match decCfg c, Gql.Dec.tsDoc d with
+    | some c, some d =>
+      match schemaOps c d with
+      | .ok ops => some (Sexp.ok (ops.map encOp))
+      | .error n => some (.list [.atom "err", .str "ScalarTypeNotProvided", .str n])
+    | _, _ => some (.list [.atom "bad-request"])
+  | .list [.atom "sites.resolvers", d] =>
+    match Gql.Dec.tsDoc d with
+    | some d => some (Sexp.ok ((resolverOps d).map encOp))
+    | none => some (.list [.atom "bad-request"])
+  | .list [.atom "sites.optype", o, d, .list ps] =>
+    match decOpts o, Gql.Dec.doc d, ps.mapM Gql.Dec.pos with
+    | some o, some d, some ps => some (Sexp.ok ((opTypeSites o d ps).map encOp))
+    | _, _, _ => some (.list [.atom "bad-request"])
+  | .list [.atom "sites.opjs", o, d] =>
+    match decOpts o, Gql.Dec.doc d with
+    | some o, some d => some (Sexp.ok ((opJsSites o d).map encOp))
+    | _, _ => some (.list [.atom "bad-request"])
+  | _ => none
+
+end C06Sites
+
 open NitroVerif.SourceMap in
-def handle : Sexp → Sexp
+def handleBase : Sexp → Sexp
   | .list [.atom "vlq.enc", n] =>
     match n.int? with
     | some n => Sexp.ok [C06Driver.str (vlqStr n)]
@@ -164,5 +228,10 @@ def handle : Sexp → Sexp
     | _, _ => .list [.atom "bad-request"]
   | .list [.atom "flush"] => .list [.atom "flushed"]
   | _ => .list [.atom "bad-request"]
+
+def handle (x : Sexp) : Sexp :=
+  match C06Sites.handle? x with
+  | some r => r
+  | none => handleBase x
 
 def main : IO Unit := serveLoop handle
